@@ -213,9 +213,9 @@ def polish(e) -> list[str]:
         return ['n', str(e[1])]
     if k == 'cmp':
         return ['cmp', e[1]] + polish(e[2]) + polish(e[3])
-    if k in ('p', 'sl', 'ds', 'and', 'or'):
+    if k in ('p', 'sl', 'ds', 'and', 'or', 'un'):
         return [k] + polish(e[1]) + polish(e[2])
-    if k in ('r', 'dr', 'g', 'not'):
+    if k in ('r', 'dr', 'g', 'not', 'count'):
         return [k] + polish(e[1])
     raise ValueError(e)
 
@@ -277,6 +277,10 @@ def render(e) -> str:
         return f'{render(e[1])} {k} {render(e[2])}'
     if k == 'not':
         return f'not({render(e[1])})'
+    if k == 'un':
+        return f'{render(e[1])} | {render(e[2])}'
+    if k == 'count':
+        return f'count({render(e[1])})'
     raise ValueError(e)
 
 
@@ -357,9 +361,18 @@ AX_WEIGHTED = (['child'] * 6 + ['descendant'] * 3 + ['descendant-or-self'] * 2 +
                ['following'] * 3 + ['preceding'] * 3 + ['attribute'] * 3 + ['namespace'] * 1)
 
 
-def gen_num(rng):
+def gen_num(rng, depth=0):
     r = rng.random()
+    if r < 0.15 and depth >= 0:
+        return ['count', gen_path(rng, rng.choice([1, 1, 2]), max(depth - 1, 0), inner=True)]
     return ['n', rng.choice([1, 1, 2, 3])] if r < 0.6 else (['last'] if r < 0.8 else ['pos'])
+
+
+def gen_union(rng, depth, inner=False):
+    e = ['un', gen_path(rng, rng.choice([1, 2]), depth, inner=inner), gen_path(rng, rng.choice([1, 2]), depth, inner=inner)]
+    if rng.random() < 0.25:
+        e = ['un', e, gen_path(rng, 1, depth, inner=inner)]
+    return e
 
 
 def gen_pred(rng, depth):
@@ -368,8 +381,13 @@ def gen_pred(rng, depth):
         return ['n', rng.choice([1, 1, 2, 2, 3])]
     if r < 0.4:
         return ['last']
+    if r < 0.43:
+        return ['count', gen_path(rng, 1, max(depth - 1, 0), inner=True)]
     if r < 0.55:
-        return ['cmp', rng.choice(list(CMPS)), rng.choice([['pos'], ['pos'], ['last']]), gen_num(rng)]
+        lhs = rng.choice([['pos'], ['pos'], ['last'], ['count', gen_path(rng, 1, max(depth - 1, 0), inner=True)]])
+        return ['cmp', rng.choice(list(CMPS)), lhs, gen_num(rng, depth - 1)]
+    if r < 0.6 and depth > 0:
+        return gen_union(rng, depth - 1, inner=True)
     if r < 0.8 or depth <= 0:
         return gen_path(rng, rng.choice([1, 1, 1, 2]), depth - 1, inner=True)
     if r < 0.9:
@@ -417,6 +435,9 @@ def gen_path(rng, nsteps, depth=2, inner=False):
             e = ['p', e, gen_pred(rng, depth - 1)]
     elif r < 0.52 and nsteps == 1 and not inner:
         return ['r0']
+    elif r < 0.6 and nsteps >= 2 and depth > 0 and not inner:
+        # FilterExpr '/' RelativeLocationPath: (e)/step, (a | b)//step
+        e = ['g', gen_union(rng, depth - 1) if rng.random() < 0.5 else gen_path(rng, rng.choice([1, 2]), depth - 1)]
     else:
         e = gen_stepish(rng, depth)
     for _ in range(nsteps - 1):
@@ -761,6 +782,13 @@ CORPUS_EXPR = [
     (T4, ['ds', ['dr', S('child', 'q::x', True)], S('child', 'q::x', True)]),
     (T3, ['dr', ['p', S('child', 'any', True), ['and', S('attribute', 'q::k', True), ['not', S('child', 'q::zz', True)]]]]),
     (T3, ['r0']),
+    (T3, ['sl', ['g', ['un', ['dr', S('child', 'q::c', True)], ['dr', S('child', 'q::e', True)]]], ['u']]),   # (//c | //e)/..
+    (T3, ['ds', ['g', ['dr', S('child', 'q::d', True)]], S('child', 'q::f', True)]),                           # (//d)//f
+    (T3, ['un', ['un', ['sl', ['dr', S('child', 'q::f', True)], ['u']], ['dr', S('child', 'q::b', True)]], ['r', S('child', 'q::a', True)]]),
+    (T3, ['dr', ['p', S('child', 'any', True), ['cmp', 'eq', ['count', S('child', 'any', True)], ['n', 2]]]]), # //*[count(*) = 2]
+    (T3, ['dr', ['p', S('child', 'any', True), ['cmp', 'eq', ['count', ['r', S('child', 'q::a', True)]], ['count', S('child', 'q::c', True)]]]]),
+    (T3, ['p', ['g', ['un', ['dr', S('child', 'q::f', True)], ['dr', S('attribute', 'any', True)]]], ['last']]),
+    (T1, ['dr', ['p', S('child', 'q::x', True), ['count', S('child', 'any', True)]]]),                         # //x[count(*)]
     (T3, ['sl', ['r', ['c']], S('child', 'any', True)]),
 ]
 
@@ -790,6 +818,8 @@ def correspond(run: Run) -> None:
         for k in range(per_tree):
             lib, mode = COMBOS[(t + k) % len(COMBOS)]
             expr = gen_path(rng, rng.choice([1, 1, 2, 2, 3, 3, 4]), depth=2)
+            if rng.random() < 0.07:
+                expr = gen_union(rng, 1)
             cases.append({'tree': tree, 'pre': pre, 'post': post, 'expr': expr, 'lib': lib, 'mode': mode,
                           'ctxseed': rng.randrange(1 << 30)})
     run.stats.rule = ('(tree, expression, root form, library, context item): trees from a grammar biased to nested same-name '
@@ -956,9 +986,11 @@ def expr_variants(e):
             yield e[1]
         for v in expr_variants(e[1]):
             yield [k, v]
-    elif k in ('and', 'or'):
+    elif k in ('and', 'or', 'un'):
         yield e[1]
         yield e[2]
+    elif k == 'count':
+        yield e[1]
 
 
 def valid_shape(e, top=True) -> bool:
@@ -967,12 +999,15 @@ def valid_shape(e, top=True) -> bool:
     if k == 'p':
         return e[1][0] in ('s', 'p', 'g') and valid_shape(e[1], False) and valid_shape(e[2], False)
     if k in ('sl', 'ds'):
-        return e[1][0] != 'r0' and valid_shape(e[1], False) and e[2][0] in ('s', 'p', 'c', 'u') and \
+        return e[1][0] not in ('r0', 'un') and valid_shape(e[1], False) and e[2][0] in ('s', 'p', 'c', 'u') and \
             (e[2][0] != 'p' or inner_is_step(e[2])) and valid_shape(e[2], False)
     if k in ('r', 'dr'):
         return e[1][0] in ('s', 'p', 'c', 'u') and (e[1][0] != 'p' or inner_is_step(e[1])) and valid_shape(e[1], False)
-    if k in ('g', 'not'):
+    if k in ('g', 'not', 'count'):
         return valid_shape(e[1], False)
+    if k == 'un':
+        return e[2][0] != 'un' and all(x[0] not in ('and', 'or', 'not', 'cmp', 'n', 'pos', 'last', 'count') and valid_shape(x, False)
+                                       for x in e[1:])
     if k in ('and', 'or', 'cmp'):
         return all(valid_shape(x, False) for x in e[1:] if isinstance(x, list))
     return True
@@ -995,7 +1030,7 @@ def shrink(d: Disagreement) -> Disagreement:
         for tv in tree_variants(c['tree']):
             cands.append(dict(c, tree=tv))
         for ev in expr_variants(c['expr']):
-            if valid_shape(ev) and ev[0] not in ('n', 'pos', 'last', 'cmp', 'and', 'or', 'not'):
+            if valid_shape(ev) and ev[0] not in ('n', 'pos', 'last', 'cmp', 'and', 'or', 'not', 'count'):
                 cands.append(dict(c, expr=ev))
         if c['pre'] or c['post']:
             cands.append(dict(c, pre=[], post=[]))
